@@ -19,9 +19,9 @@ mv $DEMO /tmp/seed/$ID.demo.rs
 SUITE=$(cargo test --workspace --no-fail-fast --offline 2>&1 | grep -E "^test result" | awk '{p+=$4; f+=$6} END {print p" passed "f" failed"}')
 mv /tmp/seed/$ID.demo.rs $DEMO
 WITH=$(cargo test --offline --all-features --test seed_${ID}_demo 2>&1 | grep -E "^test result" | tail -1)
-git stash -q
+git diff > /tmp/seed/$ID.verify.patch; git apply -R /tmp/seed/$ID.verify.patch
 WITHOUT=$(cargo test --offline --all-features --test seed_${ID}_demo 2>&1 | grep -E "^test result" | tail -1)
-git stash pop -q
+git apply /tmp/seed/$ID.verify.patch
 echo "build: $B"; echo "suite(with change): $SUITE"; echo "demo with change: $WITH"; echo "demo without: $WITHOUT"
 cd /verif
 RES=""
